@@ -1,6 +1,21 @@
 import AdeptModel.Misuse
 import Driver.Common
-/-! line-protocol driver of family `misuse` (C11 part B); see harness/drv_misuse.cpp for the grammar -/
+/-! line-protocol driver of family `misuse` (C11 part B); harness/drv_misuse.cpp implements the same grammar:
+
+    cfg <0|1>   order <0|1>   rec
+    new <k> <d|i|a|f|s|t> <seed> <extents…>
+    resize | resized | resizerm | resizecm <k> <seed> <extents…>        clear <k>        link <k> <i>
+    asg <k> <i> add|sub|mul <j>     cp <k> <i>     cadd|csub|cmul <k> <i>     where <k> <m> <i>
+    wherex <k> <m1> <m2> <i> <j>    eor <k> <m> <c> <d>
+    fill <k> <item…>   (item: integer or a<handle>)
+    diag <k> <o>   subdiag <k> <ib> <ie>   inv <k>   solve <A> <b>   matmul <k> <i> <j>   permute <k> <p0> <p1>
+    get <k> <idx…>   range <k> <b> <e>   reshape <k> <r> <c>
+    red <fn> <i> <op> <j>     redd <fn> <i> <op> <j> <dim>      fn: sum mean product minval maxval norm2 (op add|mul) | all any count (op gt)
+    loc minloc|maxloc <i> add|sub|mul <j>     find <i> <j>     dot <i> <j>
+    outer <k> <i> <j> <z>     spread <k> <D> <i> <j> <n>     diagv <i> <j> <o>     diagm <i> <j>
+    reda <k> <fn> <i> <op> <j>     redda <k> <fn> <i> add <j> <dim>     diagva <k> <i> <j> <o>     jac <k> <i>
+
+  The kind of the object a handle names (passive array, special object, active array) selects the operation of the model. -/
 open Adept Adept.Misuse
 
 namespace MisuseDrv
@@ -8,15 +23,37 @@ namespace MisuseDrv
 def showInts (xs : List Int) : String := String.intercalate "," (xs.map toString)
 def showDims (ds : List Nat) : String := String.intercalate "x" (ds.map toString)
 
+def hexDigit (n : Nat) : Char := if n < 10 then Char.ofNat (48 + n) else Char.ofNat (87 + n)
+
+/-- the bit pattern of a double, as the harness prints a non-integral value: x<16 hex digits> -/
+def showBits (f : Float) : String :=
+  let n := f.toBits.toNat
+  "x" ++ String.ofList ((List.range 16).map fun i => hexDigit ((n / 16 ^ (15 - i)) % 16))
+
+/-- integral values in decimal; otherwise the correctly rounded double (one IEEE division / square root of exactly
+    representable operands, as the library computes it) -/
+def showNum : Num → String
+  | .int v => toString v
+  | .rat n d => if d = 0 then "nan" else if n % (d : Int) = 0 then toString (n / (d : Int)) else showBits (Float.ofInt n / Float.ofNat d)
+  | .sqrt n => let r := Nat.sqrt n; if r * r = n then toString r else showBits (Float.sqrt (Float.ofNat n))
+
 def showArr (s : State) (k : Nat) : String :=
   match s.get? k with
-  | none => s!"{k}:-"
   | some a => s!"{k}:{if a.dbl then "d" else "i"}[{showDims a.dims}]={showInts a.vals}"
+  | none => match s.getS? k with
+    | some t =>
+      let c := match t.cls with | .fix => "f" | .sym => "s" | .tri => "t"
+      s!"{k}:{c}[{showDims t.a.dims}]={showInts t.a.vals}"
+    | none => match s.getA? k with
+      | some t => s!"{k}:a[{showDims t.a.dims}]={showInts t.a.vals}"
+      | none => s!"{k}:-"
 
 def showRes : Res → String
   | .ok .none => "ok"
   | .ok (.view v) => s!"ok view[{showDims v.1}]={showInts v.2}"
   | .ok (.elem x) => s!"ok elem={x}"
+  | .ok (.num x) => s!"ok elem={showNum x}"
+  | .ok (.nview d v) => s!"ok view[{showDims d}]={String.intercalate "," (v.map showNum)}"
   | .error e => "EXC " ++ e.name
 
 def parseInts (ws : List String) : Option (List Int) := ws.mapM String.toInt?
@@ -33,54 +70,120 @@ def parseItems : List String → Option (List Item)
 def parseBin : String → Option BinOp
   | "add" => some .add | "sub" => some .sub | "mul" => some .mul | _ => none
 
+def parseFn : String → Option RedFn
+  | "sum" => some .sum | "mean" => some .mean | "product" => some .product | "minval" => some .minval
+  | "maxval" => some .maxval | "norm2" => some .norm2 | "all" => some .all | "any" => some .any | "count" => some .count
+  | _ => none
+
+/-- function and operator of a reduction: all/any/count take the comparison `gt`, the others `add` or `mul` -/
+def parseRed (fn op : String) : Option (RedFn × BinOp) :=
+  match parseFn fn with
+  | some f => if f.isBool then (if op == "gt" then some (f, .add) else none)
+              else (match parseBin op with | some .sub => none | some o => some (f, o) | none => none)
+  | none => none
+
+inductive Pool | dyn | spec | act | nowhere
+deriving DecidableEq
+
+def poolOf (s : State) (k : Nat) : Pool :=
+  if (s.get? k).isSome then .dyn else if (s.getS? k).isSome then .spec else if (s.getA? k).isSome then .act else .nowhere
+
 /-- the operation and the handles whose arrays are shown after it -/
-def parseOp (ws : List String) : Option (Op × List Nat) :=
+def parseOp (s : State) (ws : List String) : Option (Op × List Nat) :=
   match ws with
   | "new" :: k :: ty :: seed :: dims =>
     match k.toNat?, seed.toInt?, parseInts dims with
     | some k, some seed, some dims =>
-      if ty == "d" then some (.new k true seed dims, [k]) else if ty == "i" then some (.new k false seed dims, [k]) else none
+      if ty == "d" then some (.new k true seed dims, [k]) else if ty == "i" then some (.new k false seed dims, [k])
+      else if ty == "a" then some (.newA k seed dims, [k])
+      else if ty == "f" then some (.newS k .fix seed dims, [k]) else if ty == "s" then some (.newS k .sym seed dims, [k])
+      else if ty == "t" then some (.newS k .tri seed dims, [k]) else none
     | _, _, _ => none
   | c :: k :: seed :: dims =>
     if c == "resize" || c == "resized" || c == "resizerm" || c == "resizecm" then
       match k.toNat?, seed.toInt?, parseInts dims with
-      | some k, some seed, some dims => some (if c == "resize" then .resize k seed dims else .resized k seed dims, [k])
+      | some k, some seed, some dims =>
+        (match poolOf s k with
+         | .dyn => some (if c == "resize" then .resize k seed dims else .resized k seed dims, [k])
+         | .act => some (if c == "resize" then .resizeA k seed dims else .resizedA k seed dims, [k])
+         | .spec => if c == "resize" then some (.resizeS k seed dims, [k]) else none
+         | .nowhere => none)
       | _, _, _ => none
     else none
   | _ => none
 
-def parseOp2 (ws : List String) : Option (Op × List Nat) :=
+def parseOp2 (s : State) (ws : List String) : Option (Op × List Nat) :=
   match ws with
   | ["asg", k, i, op, j] => match k.toNat?, i.toNat?, parseBin op, j.toNat? with
-    | some k, some i, some op, some j => some (.asg k i op j, [k, i, j])
+    | some k, some i, some op, some j =>
+      (match poolOf s k, poolOf s i with
+       | .dyn, .dyn => some (.asg k i op j, [k, i, j])
+       | .dyn, .spec => some (.asgDS k i op j, [k, i, j])
+       | .spec, _ => some (.asgS k i op j, [k, i, j])
+       | .act, _ => some (.asgA k i op j, [k, i, j])
+       | _, _ => none)
     | _, _, _, _ => none
   | ["cp", k, i] => match k.toNat?, i.toNat? with
-    | some k, some i => some (.cp k i, [k, i])
+    | some k, some i =>
+      (match poolOf s k, poolOf s i with
+       | .dyn, .dyn => some (.cp k i, [k, i])
+       | .dyn, .spec => some (.cpDS k i, [k, i])
+       | .spec, _ => some (.cpS k i, [k, i])
+       | .act, _ => some (.cpA k i, [k, i])
+       | _, _ => none)
     | _, _ => none
-  | ["cadd", k, i] => match k.toNat?, i.toNat? with
-    | some k, some i => some (.comp k .add i, [k, i])
-    | _, _ => none
-  | ["csub", k, i] => match k.toNat?, i.toNat? with
-    | some k, some i => some (.comp k .sub i, [k, i])
-    | _, _ => none
-  | ["cmul", k, i] => match k.toNat?, i.toNat? with
-    | some k, some i => some (.comp k .mul i, [k, i])
-    | _, _ => none
+  | [c, k, i] =>
+    let comp : Option BinOp := if c == "cadd" then some .add else if c == "csub" then some .sub else if c == "cmul" then some .mul else none
+    (match comp, k.toNat?, i.toNat? with
+     | some op, some k, some i =>
+       (match poolOf s k with
+        | .dyn => some (.comp k op i, [k, i])
+        | .spec => some (.compS k op i, [k, i])
+        | .act => some (.compA k op i, [k, i])
+        | .nowhere => none)
+     | _, _, _ => none)
+  | _ => none
+
+def parseOp3 (s : State) (ws : List String) : Option (Op × List Nat) :=
+  match ws with
   | ["where", k, m, i] => match k.toNat?, m.toNat?, i.toNat? with
-    | some k, some m, some i => some (.whr k m i, [k, m, i])
+    | some k, some m, some i =>
+      (match poolOf s k with
+       | .dyn => some (.whr k m i, [k, m, i])
+       | .spec => some (.whrF k m i, [k, m, i])
+       | .act => some (.whrA k m i, [k, m, i])
+       | .nowhere => none)
     | _, _, _ => none
+  | ["wherex", k, m1, m2, i, j] => match k.toNat?, m1.toNat?, m2.toNat?, i.toNat?, j.toNat? with
+    | some k, some m1, some m2, some i, some j => some (.whrx k m1 m2 i j, [k, m1, m2, i, j])
+    | _, _, _, _, _ => none
+  | ["eor", k, m, c, d] => match k.toNat?, m.toNat?, c.toNat?, d.toNat? with
+    | some k, some m, some c, some d => some (.eor k m c d, [k, m, c, d])
+    | _, _, _, _ => none
   | "fill" :: k :: items => match k.toNat?, parseItems items with
     | some k, some its => some (.fill k its, k :: its.filterMap fun | .a h => some h | .s _ => none)
     | _, _ => none
   | ["diag", k, o] => match k.toNat?, o.toInt? with
-    | some k, some o => some (.diag k o, [k])
+    | some k, some o => (match poolOf s k with
+      | .dyn => some (.diag k o, [k])
+      | .spec => some (.diagF k o, [k])
+      | _ => none)
     | _, _ => none
   | ["subdiag", k, a, b] => match k.toNat?, a.toInt?, b.toInt? with
-    | some k, some a, some b => some (.subdiag k a b, [k])
+    | some k, some a, some b => (match poolOf s k with
+      | .dyn => some (.subdiag k a b, [k])
+      | .spec => some (.subdiagS k a b, [k])
+      | _ => none)
     | _, _, _ => none
   | ["inv", k] => k.toNat?.map fun k => (.inv k, [k])
+  | ["solve", k, i] => match k.toNat?, i.toNat? with
+    | some k, some i => some (.solve k i, [k, i])
+    | _, _ => none
   | ["link", k, i] => match k.toNat?, i.toNat? with
-    | some k, some i => some (.link k i, [k, i])
+    | some k, some i => (match poolOf s k with
+      | .dyn => some (.link k i, [k, i])
+      | .spec => some (.linkS k i, [k, i])
+      | _ => none)
     | _, _ => none
   | ["matmul", k, i, j] => match k.toNat?, i.toNat?, j.toNat? with
     | some k, some i, some j => some (.matmul k i j, [k, i, j])
@@ -97,23 +200,81 @@ def parseOp2 (ws : List String) : Option (Op × List Nat) :=
   | ["reshape", k, a, b] => match k.toNat?, a.toInt?, b.toInt? with
     | some k, some a, some b => some (.reshape k a b, [k])
     | _, _, _ => none
-  | ["clear", k] => k.toNat?.map fun k => (.clear k, [k])
+  | ["clear", k] => match k.toNat? with
+    | some k => (match poolOf s k with
+      | .dyn => some (.clear k, [k])
+      | .spec => some (.clearS k, [k])
+      | .act => some (.clearA k, [k])
+      | .nowhere => none)
+    | none => none
   | _ => none
+
+def parseOp4 (ws : List String) : Option (Op × List Nat) :=
+  match ws with
+  | ["red", fn, i, op, j] => match parseRed fn op, i.toNat?, j.toNat? with
+    | some (f, o), some i, some j => some (.red f i o j, [i, j])
+    | _, _, _ => none
+  | ["redd", fn, i, op, j, dim] => match parseRed fn op, i.toNat?, j.toNat?, dim.toInt? with
+    | some (f, o), some i, some j, some dim => some (.redd f i o j dim, [i, j])
+    | _, _, _, _ => none
+  | ["loc", fn, i, op, j] => match parseBin op, i.toNat?, j.toNat? with
+    | some o, some i, some j =>
+      if fn == "minloc" then some (.loc true i o j, [i, j]) else if fn == "maxloc" then some (.loc false i o j, [i, j]) else none
+    | _, _, _ => none
+  | ["find", i, j] => match i.toNat?, j.toNat? with
+    | some i, some j => some (.find i j, [i, j])
+    | _, _ => none
+  | ["dot", i, j] => match i.toNat?, j.toNat? with
+    | some i, some j => some (.dot i j, [i, j])
+    | _, _ => none
+  | ["outer", k, i, j, z] => match k.toNat?, i.toNat?, j.toNat?, z.toNat? with
+    | some k, some i, some j, some z => some (.outer k i j z, [k, i, j, z])
+    | _, _, _, _ => none
+  | ["spread", k, d, i, j, n] => match k.toNat?, d.toNat?, i.toNat?, j.toNat?, n.toInt? with
+    | some k, some d, some i, some j, some n => some (.spread k d i j n, [k, i, j])
+    | _, _, _, _, _ => none
+  | ["diagv", i, j, o] => match i.toNat?, j.toNat?, o.toInt? with
+    | some i, some j, some o => some (.diagv i j o, [i, j])
+    | _, _, _ => none
+  | ["diagm", i, j] => match i.toNat?, j.toNat? with
+    | some i, some j => some (.diagm i j, [i, j])
+    | _, _ => none
+  | ["reda", k, fn, i, op, j] => match k.toNat?, parseFn fn, i.toNat?, parseBin op, j.toNat? with
+    | some k, some f, some i, some o, some j => some (.reda k f i o j, [k, i, j])
+    | _, _, _, _, _ => none
+  | ["redda", k, fn, i, op, j, dim] => match k.toNat?, parseFn fn, i.toNat?, parseBin op, j.toNat?, dim.toInt? with
+    | some k, some f, some i, some o, some j, some dim => some (.redda k f i o j dim, [k, i, j])
+    | _, _, _, _, _, _ => none
+  | ["diagva", k, i, j, o] => match k.toNat?, i.toNat?, j.toNat?, o.toInt? with
+    | some k, some i, some j, some o => some (.diagva k i j o, [k, i, j])
+    | _, _, _, _ => none
+  | ["jac", k, i] => match k.toNat?, i.toNat? with
+    | some k, some i => some (.jac k i, [k, i])
+    | _, _ => none
+  | _ => none
+
+/-- is an active array among the objects of the operation?  (then a failure line says what the failed statement pushed on
+    the recording: nothing) -/
+def anyActive (s : State) (op : Op) (hs : List Nat) : Bool :=
+  hs.any (fun h => (s.getA? h).isSome) || (match op with | .newA _ _ _ => true | _ => false)
 
 def step (s : State) (ws : List String) : State × String :=
   match ws with
   | ["cfg", b] => match b.toNat? with
     | some b => ({ bounds := b != 0 }, "cfg")
     | none => (s, "bad-op")
-  | ["order", _] => (s, "ok")      -- storage order does not change the logical content
+  | ["order", b] => if b.toNat?.isSome then (s, "ok") else (s, "bad-op")    -- storage order does not change the logical content
+  | ["rec"] => ((Misuse.step s .record).1, "ok")
   | _ =>
-    match (parseOp ws).orElse (fun _ => parseOp2 ws) with
+    match ((parseOp s ws).orElse fun _ => (parseOp2 s ws).orElse fun _ => (parseOp3 s ws).orElse fun _ => parseOp4 ws) with
     | none => (s, "bad-op")
     | some (op, hs) =>
       let (s', r) := Misuse.step s op
       match r with
       | .error .bad => (s, "bad-op")
       | .error .unmodelled => (s, "unmodelled")
+      | .error _ =>
+        (s', showRes r ++ (if anyActive s op hs then " rec+0+0" else "") ++ String.join ((hs.eraseDups).map fun h => " | " ++ showArr s' h))
       | _ => (s', showRes r ++ String.join ((hs.eraseDups).map fun h => " | " ++ showArr s' h))
 
 end MisuseDrv
